@@ -2,6 +2,7 @@
 """Regenerates MANIFEST.json from the table below (developer tool; not used by checks)."""
 import json
 CLAIMED = {
+ "C01": ("TREE over every two-level composition: chain vs stand-alone decomposition, bit-exact, with Probe leaves counting deliveries", "2.C01"),
  "C02": ("TREE at exact rational scalar + CLOSURE (BFS with state dedup) at f64 vs batch definition", "2.C02"),
  "C05": ("TREE at exact rational scalar + f64 CLOSURE vs batch gains/losses definition; lockstep negation pairs", "2.C05"),
  "C06": ("TREE at Q and f64 vs Pearson/Kendall/CoG definitions; lockstep negation/relabelling pairs", "2.C06"),
